@@ -3,6 +3,7 @@
    returned value satisfies P. *)
 From ZV.Common Require Import Base.
 From ZV.C15 Require Import Model ProofsCore ProofsSeq ProofsLz ProofsPz ProofsHex ProofsIo ProofsAll.
+From ZV.C15 Require Import ModelBlob ModelCases ProofsBlob ModelIo2 ProofsIo2 ModelHuff ProofsHuff ModelEntropy ProofsEntropy ModelFiles ProofsFiles ModelB64 ProofsB64.
 Open Scope N_scope.
 
 (* every modelled parser (39 entry points), every argument, every byte string shorter than 2^60:
@@ -152,3 +153,347 @@ Check hex_decode_to_slice_total :
 Print Assumptions hex_decode_to_slice_total.
 Example hex_nontrivial : hex_dec [52; 56; 54; 53] = Ok [72; 101]%Z 2.
 Proof. vm_compute. reflexivity. Qed.
+
+(* ===================== extension: loaders, entropy decoders, file openers ===================== *)
+
+(* SortedUintVec::from_bytes: for every image below 2^60 bytes no panic (in particular the division by
+   offset_width comes after the configuration is validated), reservations within the image size, and
+   the loaded vector satisfies the invariant the accessors rely on *)
+Theorem sorted_uint_vec_load_total :
+  forall bytes, nlen bytes < 2 ^ 60 ->
+    good (fun s => suv_wf s /\ 32 + nlen (sv_index s) + nlen (sv_data s) = nlen bytes) (nlen bytes)
+         (suv_from_bytes bytes).
+Proof. exact suv_from_bytes_good. Qed.
+Check sorted_uint_vec_load_total :
+  forall bytes, nlen bytes < 2 ^ 60 ->
+    good (fun s => suv_wf s /\ 32 + nlen (sv_index s) + nlen (sv_data s) = nlen bytes) (nlen bytes)
+         (suv_from_bytes bytes).
+Print Assumptions sorted_uint_vec_load_total.
+Example sorted_uint_vec_load_nontrivial :
+  (s <- suv_from_bytes [2; 0; 0; 0; 0; 0; 0; 0; 6; 8; 16; 0; 0; 0; 0; 0; 2; 0; 0; 0; 0; 0; 0; 0; 2; 0; 0; 0; 0; 0; 0; 0; 44; 1; 5; 9] ;;
+   suv_get2 true s 0) = Ok (305, 309) 4.
+Proof. vm_compute. reflexivity. Qed.
+
+(* get / get2 / get_block on any vector that satisfies the load invariant: no panic, no reservation *)
+Theorem sorted_uint_vec_get_total :
+  forall s, suv_wf s -> forall i out_len,
+    good (fun v => v < W64) 0 (suv_get true s i) /\
+    good (fun '(a, b) => a < W64 /\ b < W64) 0 (suv_get2 true s i) /\
+    good (fun _ => True) 0 (suv_get_block s i out_len).
+Proof.
+  intros s WF i out_len. split; [apply suv_get_good; exact WF|].
+  split; [apply suv_get2_good; exact WF | apply suv_get_block_good; exact WF].
+Qed.
+Check sorted_uint_vec_get_total :
+  forall s, suv_wf s -> forall i out_len,
+    good (fun v => v < W64) 0 (suv_get true s i) /\
+    good (fun '(a, b) => a < W64 /\ b < W64) 0 (suv_get2 true s i) /\
+    good (fun _ => True) 0 (suv_get_block s i out_len).
+Print Assumptions sorted_uint_vec_get_total.
+Example sorted_uint_vec_wf_inhabited :
+  exists s a, suv_from_bytes suv_overflow_image = Ok s a /\ suv_wf s.
+Proof.
+  pose proof (suv_from_bytes_good suv_overflow_image) as H.
+  destruct (suv_from_bytes suv_overflow_image) as [s a| |] eqn:E; [|vm_compute in E; discriminate..].
+  exists s, a. split; [reflexivity|]. apply H. vm_compute. reflexivity.
+Qed.
+
+(* `block_min + delta as u64` as it was: a 41-byte image with a 64-bit sample panics in get(0);
+   with the division before the validation a 32-byte image of zeros divides by zero *)
+Theorem sorted_uint_vec_unfixed_refuted :
+  (exists bytes, nlen bytes = 41 /\ (s <- suv_from_bytes bytes ;; suv_get false s 0) = Panic) /\
+  (exists bytes, nlen bytes = 32 /\ suv_from_bytes_div_first bytes = Panic).
+Proof.
+  split.
+  - exists suv_overflow_image. split; [reflexivity | exact suv_get_unfixed_panics].
+  - exists (repeat 0 32). split; [reflexivity | exact suv_div_first_panics].
+Qed.
+Check sorted_uint_vec_unfixed_refuted :
+  (exists bytes, nlen bytes = 41 /\ (s <- suv_from_bytes bytes ;; suv_get false s 0) = Panic) /\
+  (exists bytes, nlen bytes = 32 /\ suv_from_bytes_div_first bytes = Panic).
+Print Assumptions sorted_uint_vec_unfixed_refuted.
+
+(* ZipOffsetBlobStore::load_from_reader: no panic, at most twice the file size (+ padding) reserved
+   whatever content_bytes / offsets_bytes declare, the loaded store satisfies the invariant of get;
+   the padding skip is below 16 and restores 16-byte alignment *)
+Theorem zip_offset_load_total :
+  (forall bytes, nlen bytes < 2 ^ 60 ->
+     good (fun z => zs_wf z /\ nlen (zs_content z) <= nlen bytes) (2 * nlen bytes + 16) (zo_load bytes)) /\
+  (forall cb, (16 - cb mod 16) mod 16 < 16 /\ (cb + (16 - cb mod 16) mod 16) mod 16 = 0).
+Proof. split; [exact zo_load_good | exact pad_expr]. Qed.
+Check zip_offset_load_total :
+  (forall bytes, nlen bytes < 2 ^ 60 ->
+     good (fun z => zs_wf z /\ nlen (zs_content z) <= nlen bytes) (2 * nlen bytes + 16) (zo_load bytes)) /\
+  (forall cb, (16 - cb mod 16) mod 16 < 16 /\ (cb + (16 - cb mod 16) mod 16) mod 16 = 0).
+Print Assumptions zip_offset_load_total.
+
+(* BlobStore::get on a loaded store: no panic (offsets validated before the subtraction and the
+   slice), the record is no longer than the content section, nothing larger is reserved *)
+Theorem zip_offset_get_total :
+  forall z id, zs_wf z ->
+    good (fun v => v = WILD \/ (0 <= v <= Z.of_N (nlen (zs_content z)))%Z) (nlen (zs_content z)) (zo_get z id).
+Proof. exact zo_get_good. Qed.
+Check zip_offset_get_total :
+  forall z id, zs_wf z ->
+    good (fun v => v = WILD \/ (0 <= v <= Z.of_N (nlen (zs_content z)))%Z) (nlen (zs_content z)) (zo_get z id).
+Print Assumptions zip_offset_get_total.
+Example zip_offset_wf_inhabited :
+  zs_wf (mkZs [1; 2; 3] (mkSuv 2 6 8 16 false [44; 1] [0; 3]) 0 0) /\
+  zo_get (mkZs [1; 2; 3] (mkSuv 2 6 8 16 false [44; 1] [0; 3]) 0 0) 0 = Err 0.
+Proof.
+  split; [|vm_compute; reflexivity].
+  constructor; [constructor; [constructor; vm_compute; discriminate | vm_compute; discriminate | reflexivity | reflexivity]
+               | reflexivity].
+Qed.
+
+(* DataInput::read_vec with the growth of the buffer counted: from the start and from EVERY state of the
+   chunk loop (got bytes read, cap bytes reserved, got <= cap <= got + CHUNK) the bytes still to be
+   reserved are bounded by the bytes really present plus one chunk, minus what is already reserved -
+   whatever the declared length is *)
+Theorem length_prefixed_read_bounded :
+  (forall fuel len got cap rest acc,
+     got <= cap -> cap <= got + CHUNK -> got + nlen rest + CHUNK <= ISIZE_MAX ->
+     good (fun '(v, rest') => nlen rest' <= nlen rest) (nlen rest + CHUNK - (cap - got))
+          (read_vec_loop_g false fuel len got cap rest acc)) /\
+  (forall len rest, nlen rest < 2 ^ 60 ->
+     good (fun '(v, rest') => nlen rest' <= nlen rest) (nlen rest + CHUNK) (read_vec_g false len rest)) /\
+  (forall data, nlen data < 2 ^ 60 -> good (fun _ => True) (nlen data + CHUNK) (sdi_lp_bytes_g false data)).
+Proof. split; [exact read_vec_loop_g_good | split; [exact read_vec_g_good | exact sdi_lp_bytes_g_good]]. Qed.
+Check length_prefixed_read_bounded :
+  (forall fuel len got cap rest acc,
+     got <= cap -> cap <= got + CHUNK -> got + nlen rest + CHUNK <= ISIZE_MAX ->
+     good (fun '(v, rest') => nlen rest' <= nlen rest) (nlen rest + CHUNK - (cap - got))
+          (read_vec_loop_g false fuel len got cap rest acc)) /\
+  (forall len rest, nlen rest < 2 ^ 60 ->
+     good (fun '(v, rest') => nlen rest' <= nlen rest) (nlen rest + CHUNK) (read_vec_g false len rest)) /\
+  (forall data, nlen data < 2 ^ 60 -> good (fun _ => True) (nlen data + CHUNK) (sdi_lp_bytes_g false data)).
+Print Assumptions length_prefixed_read_bounded.
+Example length_prefixed_read_bounded_nontrivial :
+  sdi_lp_bytes_g false (lying_input [128; 128; 128; 128; 128; 32]) = Err 131072.
+Proof. exact read_vec_fixed_on_witness. Qed.
+
+(* the seeded change (reserve the whole declared length once the first chunk has arrived): 6 + 65536
+   bytes request 2^40 bytes, 10 + 65536 bytes panic with a capacity overflow *)
+Theorem length_prefixed_read_regressed_refuted :
+  (exists data, nlen data = 65542 /\ alloc_of (sdi_lp_bytes_g true data) = 2 ^ 40) /\
+  (exists data, nlen data = 65546 /\ sdi_lp_bytes_g true data = Panic).
+Proof.
+  split.
+  - exists (lying_input [128; 128; 128; 128; 128; 32]). split; [vm_compute; reflexivity | exact read_vec_regressed_allocates].
+  - exists (lying_input [128; 128; 128; 128; 128; 128; 128; 128; 128; 1]). split; [vm_compute; reflexivity | exact read_vec_regressed_panics].
+Qed.
+Check length_prefixed_read_regressed_refuted :
+  (exists data, nlen data = 65542 /\ alloc_of (sdi_lp_bytes_g true data) = 2 ^ 40) /\
+  (exists data, nlen data = 65546 /\ sdi_lp_bytes_g true data = Panic).
+Print Assumptions length_prefixed_read_regressed_refuted.
+
+(* HuffmanTree::deserialize and ContextualHuffmanEncoder::deserialize (byte strings = lists of numbers
+   below 256): the parse never panics and reserves at most 8 (28) bytes per input byte; every code has
+   at most 255 bits; the tree construction cannot panic for ANY insertion order (the HashMap order is
+   not a function of the input) and nests at most |code| + 1 <= 256 calls of insert_code_into_tree; a
+   deserialised contextual encoder has at least one tree and only valid tree indices in its context map *)
+Theorem huffman_deserialize_total :
+  (forall fixed data, nlen data < 2 ^ 60 -> bytes_ok data ->
+     good (fun '(tb, _) => codes_short tb) (8 * nlen data) (ht_deser fixed data)) /\
+  (forall ord, good (fun _ => True) 0 (ht_build ord)) /\
+  (forall c t, (insert_calls t c <= length c + 1)%nat) /\
+  (forall fixed data, nlen data < 2 ^ 58 -> bytes_ok data ->
+     good ctx_idx_ok (28 * nlen data) (ctx_deser fixed data)).
+Proof. split; [exact ht_deser_good | split; [exact ht_build_good | split; [exact insert_calls_le | exact ctx_deser_good]]]. Qed.
+Check huffman_deserialize_total :
+  (forall fixed data, nlen data < 2 ^ 60 -> bytes_ok data ->
+     good (fun '(tb, _) => codes_short tb) (8 * nlen data) (ht_deser fixed data)) /\
+  (forall ord, good (fun _ => True) 0 (ht_build ord)) /\
+  (forall c t, (insert_calls t c <= length c + 1)%nat) /\
+  (forall fixed data, nlen data < 2 ^ 58 -> bytes_ok data ->
+     good ctx_idx_ok (28 * nlen data) (ctx_deser fixed data)).
+Print Assumptions huffman_deserialize_total.
+Example huffman_deserialize_nontrivial :
+  ctx_deser true [1; 2; 0; 0; 0; 1; 0; 0; 0; 97; 0; 0; 0; 1; 0; 0; 0;
+                  8; 0; 0; 0; 2; 0; 97; 1; 0; 98; 1; 1;  5; 0; 0; 0; 1; 0; 122; 1; 0]
+  = Ok (HC.mkC 1 [H.mkHT (Some (H.Node (H.Leaf 97) (H.Leaf 98))) [(98, [true]); (97, [false])];
+                  H.mkHT (Some (H.Leaf 122)) [(122, [false])]] [(97, 1%nat)]) 163.
+Proof. vm_compute. reflexivity. Qed.
+
+(* HuffmanDecoder::decode, ContextualHuffmanDecoder::decode (orders 0/1/2, for every encoder with valid
+   indices), decode_x1..x8: no panic; the output is no longer than the expected length AND no longer
+   than 8 * input + 1; nothing is reserved from the caller-supplied length alone *)
+Theorem huffman_decode_total :
+  (forall root bytes outlen, nlen bytes < 2 ^ 60 ->
+     good (fun out => nlen out <= outlen /\ nlen out <= 8 * nlen bytes + 1)
+          (N.min outlen (8 * nlen bytes + 1)) (huff_decode_o true root bytes outlen)) /\
+  (forall e bytes outlen, ctx_idx_ok e -> nlen bytes < 2 ^ 60 ->
+     good (fun out => nlen out <= outlen /\ nlen out <= 8 * nlen bytes + 1)
+          (2 * N.min outlen (8 * nlen bytes + 1)) (ctx_decode_o e bytes outlen)) /\
+  (forall e nst bytes outlen, nlen bytes < 2 ^ 60 ->
+     good (fun _ => True) (XN_TABLE_BYTES + N.min outlen (8 * nlen bytes)) (xn_decode_o e nst bytes outlen)).
+Proof. split; [exact huff_decode_o_good | split; [exact ctx_decode_o_good | exact xn_decode_o_good]]. Qed.
+Check huffman_decode_total :
+  (forall root bytes outlen, nlen bytes < 2 ^ 60 ->
+     good (fun out => nlen out <= outlen /\ nlen out <= 8 * nlen bytes + 1)
+          (N.min outlen (8 * nlen bytes + 1)) (huff_decode_o true root bytes outlen)) /\
+  (forall e bytes outlen, ctx_idx_ok e -> nlen bytes < 2 ^ 60 ->
+     good (fun out => nlen out <= outlen /\ nlen out <= 8 * nlen bytes + 1)
+          (2 * N.min outlen (8 * nlen bytes + 1)) (ctx_decode_o e bytes outlen)) /\
+  (forall e nst bytes outlen, nlen bytes < 2 ^ 60 ->
+     good (fun _ => True) (XN_TABLE_BYTES + N.min outlen (8 * nlen bytes)) (xn_decode_o e nst bytes outlen)).
+Print Assumptions huffman_decode_total.
+Example huffman_decode_nontrivial :
+  huff_decode_o true (Some (H.Node (H.Leaf 97) (H.Node (H.Leaf 98) (H.Leaf 99)))) [180; 1] 5
+  = Ok [97; 97; 98; 99; 97] 5.
+Proof. vm_compute. reflexivity. Qed.
+
+(* the two code shapes that were repaired: Vec::with_capacity(output_length) (capacity overflow for
+   usize::MAX, 4 GiB for 2^32-1 from one input byte), and a code of length zero accepted by deserialize
+   (decode_next_symbol then returns its symbol without consuming a bit) *)
+Theorem huffman_unfixed_refuted :
+  (huff_decode_o false (Some (H.Leaf 1)) [0] (W64 - 1) = Panic /\
+   alloc_of (huff_decode_o false (Some (H.Leaf 1)) [0] (W32 - 1)) = W32 - 1) /\
+  (exists data, nlen data = 4 /\ ht_deser true data = Err 0 /\
+     exists tb, ht_deser false data = Ok (tb, 0) 0 /\
+       forall bits, HC.dns true (H.mkHT (Some (H.Leaf 97)) tb) bits = Some (97, bits)).
+Proof.
+  split; [split; [exact huff_decode_uncapped_panics | exact huff_decode_uncapped_allocates]|].
+  exists [1; 0; 97; 0]. split; [reflexivity|]. split; [exact zero_len_rejected|].
+  exists [(97, [])]. split; [exact zero_len_accepted | exact zero_len_no_progress].
+Qed.
+Check huffman_unfixed_refuted :
+  (huff_decode_o false (Some (H.Leaf 1)) [0] (W64 - 1) = Panic /\
+   alloc_of (huff_decode_o false (Some (H.Leaf 1)) [0] (W32 - 1)) = W32 - 1) /\
+  (exists data, nlen data = 4 /\ ht_deser true data = Err 0 /\
+     exists tb, ht_deser false data = Ok (tb, 0) 0 /\
+       forall bits, HC.dns true (H.mkHT (Some (H.Leaf 97)) tb) bits = Some (97, bits)).
+Print Assumptions huffman_unfixed_refuted.
+
+(* Rans64Decoder::decode (1, 2, 4 or 8 streams) with ANY table whose frequencies sum to at most 4096 (what
+   Rans64Encoder::new builds): no panic - the state update `freq * (x / 4096) + x % 4096 - start` neither
+   overflows nor underflows for any 64-bit state, the header slices are in range - and, whatever the
+   expected length says, at most 64 KiB per stream are reserved before the symbols exist; the final
+   buffer is bounded by the 100 MiB limit *)
+Theorem rans_decode_total :
+  forall n t bytes outlen, n <= 8 -> rans_table_ok t -> bytes_ok bytes ->
+    good (fun _ => True) (8 * (56 + MAX_PREALLOC) + N.min outlen MAX_DECOMPRESSED) (rans_decode n t bytes outlen).
+Proof. exact rans_decode_good. Qed.
+Check rans_decode_total :
+  forall n t bytes outlen, n <= 8 -> rans_table_ok t -> bytes_ok bytes ->
+    good (fun _ => True) (8 * (56 + MAX_PREALLOC) + N.min outlen MAX_DECOMPRESSED) (rans_decode n t bytes outlen).
+Print Assumptions rans_decode_total.
+Example rans_decode_nontrivial :
+  rans_table_ok (repeat 16 256) /\
+  rans_decode 1 (repeat 16 256) [7; 9; 0; 0; 2; 0; 0; 0; 0; 0] 3 = Ok [0; 0; 144] 3.
+Proof. split; vm_compute; [discriminate | reflexivity]. Qed.
+
+(* FseDecoder::decompress (single block and block container): for every input below 2^60 bytes the header
+   path - size limit, table log range, frequency table, FseTable::new's checked frequency sum,
+   FastDivision::new - never panics, and a single block reserves at most its own size, the table and
+   64 KiB before the decoding loop *)
+Theorem fse_decode_total :
+  (forall data, nlen data < 2 ^ 60 ->
+     fsev_no_panic (fse_single_v true data) /\
+     fsev_alloc (fse_single_v true data) <= nlen data + FSE_TABLE_BYTES + MAX_PREALLOC) /\
+  (forall data, nlen data < 2 ^ 60 -> fsev_no_panic (fse_decompress_v data)).
+Proof. split; [exact fse_single_ok | exact fse_decompress_no_panic]. Qed.
+Check fse_decode_total :
+  (forall data, nlen data < 2 ^ 60 ->
+     fsev_no_panic (fse_single_v true data) /\
+     fsev_alloc (fse_single_v true data) <= nlen data + FSE_TABLE_BYTES + MAX_PREALLOC) /\
+  (forall data, nlen data < 2 ^ 60 -> fsev_no_panic (fse_decompress_v data)).
+Print Assumptions fse_decode_total.
+Example fse_decode_nontrivial :
+  fse_decompress_v [2; 0; 0; 0; 7; 0; 0; 0; 7; 0; 0; 0; 2; 0; 0; 0; 255; 120; 121; 2; 0; 0; 0; 255; 120; 121]
+  = FVal (Ok [120; 121; 120; 121] 24).
+Proof. vm_compute. reflexivity. Qed.
+
+(* FastDivision::new before fix 7376e1a: a stored frequency sum of 2^31 shifts a u64 by 64 bits *)
+Theorem fse_fastdiv_unfixed_refuted :
+  fast_div_new false 2147483648 = Panic /\ fast_div_new true 2147483648 <> Panic.
+Proof. split; [exact fast_div_unfixed_panics | apply fast_div_fixed_no_panic]. Qed.
+Check fse_fastdiv_unfixed_refuted :
+  fast_div_new false 2147483648 = Panic /\ fast_div_new true 2147483648 <> Panic.
+Print Assumptions fse_fastdiv_unfixed_refuted.
+
+(* MmapVecHeader::validate + MmapVec::<u64>::open (the C19 model mv_open with the outcome layer): no
+   panic, at most twice the file size reserved, and an opened vector only addresses bytes of its file:
+   80 + len * 8 <= file length, so get(i) / as_slice never leave the mapping *)
+Theorem mmap_vec_open_total :
+  forall f, nlen f < 2 ^ 60 ->
+    good (fun '(len, _) => 80 + len * 8 <= nlen f) (2 * nlen f) (mv_open_o f).
+Proof. exact mv_open_o_good. Qed.
+Check mmap_vec_open_total :
+  forall f, nlen f < 2 ^ 60 ->
+    good (fun '(len, _) => 80 + len * 8 <= nlen f) (2 * nlen f) (mv_open_o f).
+Print Assumptions mmap_vec_open_total.
+Example mmap_vec_open_nontrivial :
+  mv_cell ([67; 69; 86; 95; 80; 65; 77; 77; 1; 0; 0; 0; 8; 0; 0; 0; 1; 0; 0; 0; 0; 0; 0; 0; 2; 0; 0; 0; 0; 0; 0; 0]
+           ++ repeat 0 48 ++ [7; 0; 0; 0; 0; 0; 0; 0] ++ repeat 0 8)
+  = Ok [1; 7; -1; 7; 7; 7]%Z 192.
+Proof. vm_compute. reflexivity. Qed.
+
+(* ZReorderMap::open (the C19 model ro_parse with the outcome layer): no panic, nothing reserved, and an
+   opened map has no empty run and runs that sum to exactly `size` - the iterator's `seq_length -= 1`
+   cannot underflow and it ends with the last run *)
+Theorem reorder_map_open_total :
+  forall f, good (fun '(size, _, rs) => Forall (fun r => snd r <> 0) rs /\ runs_total rs = size) 0 (ro_open_o f).
+Proof. exact ro_open_o_good. Qed.
+Check reorder_map_open_total :
+  forall f, good (fun '(size, _, rs) => Forall (fun r => snd r <> 0) rs /\ runs_total rs = size) 0 (ro_open_o f).
+Print Assumptions reorder_map_open_total.
+Example reorder_map_open_nontrivial :
+  ro_cell [5; 0; 0; 0; 0; 0; 0; 0; 1; 0; 0; 0; 0; 0; 0; 0;  200; 0; 0; 0; 0; 3;  14; 0; 0; 0; 0; 2]
+  = Ok [5; 5; 8]%Z 0.
+Proof. vm_compute. reflexivity. Qed.
+
+(* Dictionary::deserialize: no panic, the sequences copied never exceed the bytes present, whatever
+   the entry count says *)
+Theorem dictionary_deserialize_total :
+  forall data, nlen data < 2 ^ 60 -> good (fun _ => True) (nlen data) (dict_deser data).
+Proof. exact dict_deser_good. Qed.
+Check dictionary_deserialize_total :
+  forall data, nlen data < 2 ^ 60 -> good (fun _ => True) (nlen data) (dict_deser data).
+Print Assumptions dictionary_deserialize_total.
+Example dictionary_deserialize_nontrivial :
+  dict_deser [2; 0; 0; 0;  1; 0; 97; 0; 0; 0; 0; 1; 0; 0; 0;  1; 0; 97; 5; 0; 0; 0; 1; 0; 0; 0] = Ok [1]%Z 2.
+Proof. vm_compute. reflexivity. Qed.
+
+(* SimdLz77Compressor::decompress: the match stream decodes without panic, copy_backward_reference is
+   only reached with 1 <= distance <= output length (no underflow, no `i % 0`), the output stays within
+   the 100 MiB limit; with the distance check left to a debug_assert a 10-byte stream divides by zero *)
+Theorem simd_lz77_decompress_total :
+  (forall data, good (fun n => n <= MAX_DECOMPRESSED) 0 (slz_dec true data)) /\
+  (exists data, nlen data = 10 /\ slz_dec false data = Panic /\ slz_dec true data = Err 0).
+Proof.
+  split; [exact slz_dec_good|]. exists slz_dist0.
+  split; [reflexivity | split; [exact slz_unchecked_panics | exact slz_checked_errs]].
+Qed.
+Check simd_lz77_decompress_total :
+  (forall data, good (fun n => n <= MAX_DECOMPRESSED) 0 (slz_dec true data)) /\
+  (exists data, nlen data = 10 /\ slz_dec false data = Panic /\ slz_dec true data = Err 0).
+Print Assumptions simd_lz77_decompress_total.
+Example simd_lz77_nontrivial : slz_dec true [2 + 8 * 1; 8 + 16 * 3; 0] = Ok 10 0.
+Proof. vm_compute. reflexivity. Qed.
+
+(* hex_decode(&str) = hex_decode_bytes on the UTF-8 bytes: any byte of a non-ASCII character (>= 128) is
+   reported as an error, for every string (hex_decode_total gives no panic / the reservation) *)
+Theorem hex_decode_str_total :
+  forall data, nlen data < W63 -> Exists (fun b => 128 <= b) data -> exists a, hex_dec data = Err a.
+Proof. exact hex_dec_nonascii. Qed.
+Check hex_decode_str_total :
+  forall data, nlen data < W63 -> Exists (fun b => 128 <= b) data -> exists a, hex_dec data = Err a.
+Print Assumptions hex_decode_str_total.
+Example hex_decode_str_nontrivial : hex_dec [52; 195; 169; 53] = Err 2.
+Proof. vm_compute. reflexivity. Qed.
+
+(* AdaptiveBase64::decode, all four configurations (standard / url-safe alphabet, padding required and
+   canonical / refused): no panic, 3 bytes reserved per 4 input bytes, output no longer than the input *)
+Theorem base64_decode_total :
+  forall cfg data, nlen data < 2 ^ 60 ->
+    good (fun out => nlen out <= nlen data) ((nlen data + 3) / 4 * 3) (b64_dec cfg data).
+Proof. exact b64_dec_good. Qed.
+Check base64_decode_total :
+  forall cfg data, nlen data < 2 ^ 60 ->
+    good (fun out => nlen out <= nlen data) ((nlen data + 3) / 4 * 3) (b64_dec cfg data).
+Print Assumptions base64_decode_total.
+Example base64_decode_nontrivial :
+  b64_dec 0 [90; 109; 57; 118; 89; 103; 61; 61] = Ok [102; 111; 111; 98] 6 /\
+  b64_dec 2 [90; 109; 57; 118; 89; 103; 61; 61] = Err 6 /\ b64_dec 0 [90; 109; 57; 118; 89; 104; 61; 61] = Err 6.
+Proof. vm_compute. repeat split. Qed.
